@@ -116,6 +116,12 @@ def build(tier, rnd):
         cases.append(("raw-escape", prog, False))
         cases.append(("raw-escape", "do %s catch all 'caught' end" % prog, False))
         cases.append(("raw-escape", "def l_ = []; do %s catch 'ERROR' append(l_, 1) finally append(l_, 2) end; l_" % prog, False))
+    # string interpolation whose substituted values contain placeholders themselves (with widths, alignments, each other): one pass, it ends
+    for prog in ["def a = '{a#12}'; s('x{a#12}y')", "def a = '{a}'; s('{a#5}{a}')", "def a = '{b#9}'; def b = '{a#9}'; s('{a#12} {b#-12}')", "def a = '{'; s('{a#3}}')",
+                 "def a = '{a#012}'; s('{a#012}')", "def a = '{a#-12}'; s('{a#-12}|{a#20}')", "def a = '{{a#8}#8}'; s('{a#8}')", "def a = '}{a#4}{'; s('{a#9}{a#2}')",
+                 "def n = 5; def a = '{n#3}'; s('{a#2}{a#7}{n#04}')", "def a = 'x'; s('{a#100000}') !> length()"]:
+        cases.append(("s-braces", prog, False))
+        cases.append(("s-braces", "do %s catch all 'caught' end" % prog, False))
     # element assignment whose right-hand side shrinks, grows or replaces the very container it assigns to
     for coll in ["[1, 2, 3]", "[1]", "<<<1 => 2, 3 => 4>>>", "'abc'", "<*a = 1*>"]:
         for tgt in ["c[2]", "c[-1]", "c[0]", "c[1]", "c['a']", "c->a"]:
